@@ -90,6 +90,9 @@ func newRun(o sink, name string, cfg bftsim.Config) *run {
 		byz = strings.Join(bs, ",")
 	}
 	line := fmt.Sprintf("cfg %d %s %s %d", cfg.N, byz, strings.Join(pw, ","), cfg.Root0)
+	if cfg.LastRootHeightUpdated != 0 {
+		line += fmt.Sprintf(" %d", cfg.LastRootHeightUpdated)
+	}
 	r.sched = append(r.sched, fmt.Sprintf("%s salt=%d keyseed=%d", line, cfg.Salt, cfg.KeySeed))
 	o.Op(line, fmt.Sprintf("ok total=%d maj=%d", r.s.ValSet.TotalPower, r.s.ValSet.MinimumMaj23))
 	return r
